@@ -534,12 +534,24 @@ func cmdCheck(args []string) {
 		if r.Witness != nil && !h.NoWitness && len(r.EngineErrors) == 0 {
 			// a witness through a Par block is replayed under the deterministic scheduler (real goroutines would
 			// pick their own interleaving)
-			out, err := nr.runMode(h.Pkg, h.Fn, r.Witness.ND, false, hasKind(r.Witness.ND, "sched"), pre, 120*time.Second, "witness_"+h.Fn)
+			want := obsLines(r.Witness.Obs)
+			var out string
+			var got []string
+			var err error
+			// native runs involve real goroutines, timers and sockets: a mismatch must persist over three runs
+			for try := 0; try < 3; try++ {
+				out, err = nr.runMode(h.Pkg, h.Fn, r.Witness.ND, false, hasKind(r.Witness.ND, "sched"), pre, 120*time.Second, "witness_"+h.Fn)
+				if err != nil {
+					break
+				}
+				got = grepPrefix(out, "VERIFND-OBS ")
+				if strings.Contains(out, "VERIFND-END") && !strings.Contains(out, "VERIFND-ASSERT-FAILED") && strings.Join(want, "\n") == strings.Join(got, "\n") {
+					break
+				}
+			}
 			if err != nil {
 				fail2(err.Error())
 			} else {
-				want := obsLines(r.Witness.Obs)
-				got := grepPrefix(out, "VERIFND-OBS ")
 				if !strings.Contains(out, "VERIFND-END") || strings.Contains(out, "VERIFND-ASSERT-FAILED") || strings.Join(want, "\n") != strings.Join(got, "\n") {
 					fail2(fmt.Sprintf("%s: translator validation mismatch on witness path\n--- predicted\n%s\n--- native\n%s\n--- native tail\n%s", h.Fn, strings.Join(want, "\n"), strings.Join(got, "\n"), tail(out, 25)))
 				} else {
